@@ -404,7 +404,8 @@ func execWDiff(c *Sx, env *execEnv) (*Sx, []Violation) {
 
 // generator: B is a random edit of A (policies changed, workloads added/removed, other ipBlock layouts)
 func genWDiff(r *Rng, id int, tier string) *Sx {
-	cfg := &genCfg{anp: r.P(35), banp: true, pods: r.P(30), ingress: r.P(20), namedOnIPPct: 0, maxNP: 4, maxWl: 5}
+	// names the analysis treats specially (the pod it adds for ingress analysis) occur as real workloads of a diff pair too
+	cfg := &genCfg{anp: r.P(35), banp: true, pods: r.P(30), ingress: r.P(20), icName: r.P(25), namedOnIPPct: 0, maxNP: 4, maxWl: 5}
 	a := genWorld(r, cfg)
 	b := cloneWorld(a)
 	kind := "edit"
